@@ -428,6 +428,75 @@ def _provider_histories(depth):
     return acc
 
 
+class _AliasingSource:
+    """a conforming IDateTimeZoneSource whose for_id returns, for an alias, a zone carrying the canonical id (explicitly
+    permitted by the interface) and a fresh object on every call (also permitted)"""
+
+    def __init__(self):
+        self.real = TzdbDateTimeZoneSource.default
+        self.calls = []
+
+    @property
+    def version_id(self):
+        return "vf-aliasing-source"
+
+    def get_ids(self):
+        return ["Canon/London", "Alias/London", "Canon/Paris"]
+
+    def get_system_default_id(self):
+        return None
+
+    def for_id(self, id_):
+        self.calls.append(id_)
+        return self.real.for_id({"Canon/London": "Europe/London", "Alias/London": "Europe/London", "Canon/Paris": "Europe/Paris"}[id_])
+
+
+def _provider_histories_custom(depth):
+    """provider semantics over a source that makes use of the freedoms the interface grants"""
+    acc = Acc()
+    alpha = [("item", "Alias/London"), ("get", "Alias/London"), ("item", "Canon/London"), ("get", "Canon/London"), ("item", "Canon/Paris"),
+             ("get", "Europe/London"), ("item", "UTC+02")]
+    probes = [mk_instant(x) for x in (0, 1_616_893_200 * 10**9)]
+    n = 0
+    for d in range(1, depth + 1):
+        for hist in itertools.product(alpha, repeat=d):
+            src = _AliasingSource()
+            cache = DateTimeZoneCache(src)
+            seen = {}
+            n += 1
+            acc.count(evaluations=1)
+            for i, (kind, zid) in enumerate(hist):
+                acc.count(transitions=1)
+                try:
+                    z = cache[zid] if kind == "item" else cache.get_zone_or_none(zid)
+                except Exception as e:  # noqa: BLE001
+                    acc.lib_exception("C13/provider-custom", e, {"history": list(hist[:i + 1])})
+                    break
+                if zid == "Europe/London":
+                    # not advertised by this source: must stay unknown whatever was asked before
+                    if z is not None:
+                        acc.violation("C13/provider-custom/unadvertised-id-resolved", "id Europe/London is not advertised by the source but resolved after %r" % (hist[:i],),
+                                      {"kind": "provider-custom", "history": list(hist[:i + 1])})
+                        break
+                    continue
+                if z is None:
+                    acc.violation("C13/provider-custom/known-id-none", "%r returned None after %r" % ((kind, zid), hist[:i]), {"kind": "provider-custom", "history": list(hist[:i + 1])})
+                    break
+                if zid in seen and not zid.startswith("UTC") and seen[zid] is not z:
+                    acc.violation("C13/provider-custom/not-same-object/%s" % zid, "repeated lookup of %s returned a different zone object (history %r); source calls %r" % (zid, hist[:i + 1], src.calls),
+                                  {"kind": "provider-custom", "history": list(hist[:i + 1])})
+                    break
+                seen[zid] = z
+                exp_off = 7200 if zid == "UTC+02" else None
+                if exp_off is not None and z.get_utc_offset(probes[0]).seconds != exp_off:
+                    acc.violation("C13/provider-custom/fixed", "UTC+02 has offset %d" % z.get_utc_offset(probes[0]).seconds, {"history": list(hist[:i + 1])})
+            if len(src.calls) != len(set(src.calls)):
+                acc.outcome("provider-custom:source-consulted-more-than-once")   # allowed; recorded only
+    acc.count(states=n, nontrivial=n)
+    acc.outcome("provider-custom")
+    return acc
+
+
 def _calendar_routes():
     routes = []
     for cid in CalendarSystem.ids:
@@ -894,6 +963,7 @@ def run(ctx):
     ctx.merge_part("hist_format_info", acc)
     mark("hist_lru_and_format_info")
     ctx.merge_part("hist_provider", _provider_histories(3 if tier == "quick" else 4))
+    ctx.merge_part("hist_provider_custom_source", _provider_histories_custom(3 if tier == "quick" else 4))
     acc = Acc()
     _calendar_histories(acc)
     ctx.merge_part("hist_calendars", acc)
